@@ -140,41 +140,7 @@ impl TargetPlatform for JavascriptTargetPlatform {
         entity_name: EntityName,
         indentation_level: u8,
     ) -> String {
-        let entity = flattened_entity_named(db, entity_name).expect_entity_to_exist(entity_name);
-
-        match entity
-            .lookup(db)
-            .associated_data
-            .as_ref()
-            .as_server()
-            .expect("Expected entity to be server defined.")
-            .target_platform
-            .as_ref()
-        {
-            SelectionType::Object(_) => {
-                // TODO this is bad; we should never create a type containing all of the fields
-                // on a given object. This is currently used for input objects, and we should
-                // consider how to do this is a not obviously broken manner.
-                let mut s = "{\n".to_string();
-
-                for (name, server_selectable) in flattened_selectables_for_entity(db, entity_name)
-                    .as_ref()
-                    .expect("Expected entity to be defined")
-                {
-                    let field_type = format_field_definition(
-                        db,
-                        name,
-                        server_selectable.dereference(),
-                        indentation_level + 1,
-                    );
-                    s.push_str(&field_type)
-                }
-
-                s.push_str(&format!("{}}}", "  ".repeat(indentation_level as usize)));
-                s
-            }
-            SelectionType::Scalar(s) => s.to_string(),
-        }
+        format_scalar_or_input_object_type(db, entity_name, indentation_level, &mut vec![])
     }
 
     fn get_inner_text_for_selectable<
@@ -404,11 +370,68 @@ pub struct GraphQLSchemaObjectAssociatedData {
     pub subtypes: Vec<EntityName>,
 }
 
-fn format_field_definition<TCompilationProfile: CompilationProfile>(
+fn format_scalar_or_input_object_type<
+    TCompilationProfile: CompilationProfile<TargetPlatform = JavascriptTargetPlatform>,
+>(
+    db: &IsographDatabase<TCompilationProfile>,
+    entity_name: EntityName,
+    indentation_level: u8,
+    enclosing_input_objects: &mut Vec<EntityName>,
+) -> String {
+    let entity = flattened_entity_named(db, entity_name).expect_entity_to_exist(entity_name);
+
+    match entity
+        .lookup(db)
+        .associated_data
+        .as_ref()
+        .as_server()
+        .expect("Expected entity to be server defined.")
+        .target_platform
+        .as_ref()
+    {
+        SelectionType::Object(_) => {
+            // An input object type that (transitively) refers to itself cannot be written out
+            // as an anonymous object type.
+            if enclosing_input_objects.contains(&entity_name) {
+                return format!("unknown /* recursive input type {entity_name} */");
+            }
+            enclosing_input_objects.push(entity_name);
+
+            // TODO this is bad; we should never create a type containing all of the fields
+            // on a given object. This is currently used for input objects, and we should
+            // consider how to do this is a not obviously broken manner.
+            let mut s = "{\n".to_string();
+
+            for (name, server_selectable) in flattened_selectables_for_entity(db, entity_name)
+                .as_ref()
+                .expect("Expected entity to be defined")
+            {
+                let field_type = format_field_definition(
+                    db,
+                    name,
+                    server_selectable.dereference(),
+                    indentation_level + 1,
+                    enclosing_input_objects,
+                );
+                s.push_str(&field_type)
+            }
+
+            s.push_str(&format!("{}}}", "  ".repeat(indentation_level as usize)));
+            enclosing_input_objects.pop();
+            s
+        }
+        SelectionType::Scalar(s) => s.to_string(),
+    }
+}
+
+fn format_field_definition<
+    TCompilationProfile: CompilationProfile<TargetPlatform = JavascriptTargetPlatform>,
+>(
     db: &IsographDatabase<TCompilationProfile>,
     name: &SelectableName,
     server_selectable: MemoRefServerSelectable<TCompilationProfile>,
     indentation_level: u8,
+    enclosing_input_objects: &mut Vec<EntityName>,
 ) -> String {
     let server_selectable = server_selectable.lookup(db);
     let is_optional = is_nullable(
@@ -433,7 +456,8 @@ fn format_field_definition<TCompilationProfile: CompilationProfile>(
                 .as_ref()
                 .expect("Expected target entity to be valid.")
                 .reference(),
-            indentation_level + 1
+            indentation_level + 1,
+            enclosing_input_objects,
         ),
     )
 }
@@ -446,19 +470,21 @@ fn is_nullable(type_annotation: &TypeAnnotationDeclaration) -> bool {
     }
 }
 
-fn format_type_annotation<TCompilationProfile: CompilationProfile>(
+fn format_type_annotation<
+    TCompilationProfile: CompilationProfile<TargetPlatform = JavascriptTargetPlatform>,
+>(
     db: &IsographDatabase<TCompilationProfile>,
     type_annotation: &TypeAnnotationDeclaration,
     indentation_level: u8,
+    enclosing_input_objects: &mut Vec<EntityName>,
 ) -> String {
     match type_annotation.reference() {
-        TypeAnnotationDeclaration::Scalar(scalar) => {
-            TCompilationProfile::TargetPlatform::format_server_field_scalar_type(
-                db,
-                scalar.0,
-                indentation_level + 1,
-            )
-        }
+        TypeAnnotationDeclaration::Scalar(scalar) => format_scalar_or_input_object_type(
+            db,
+            scalar.0,
+            indentation_level + 1,
+            enclosing_input_objects,
+        ),
         TypeAnnotationDeclaration::Union(union_type_annotation) => {
             if union_type_annotation.variants.is_empty() {
                 panic!("Unexpected union with not enough variants.");
@@ -474,10 +500,11 @@ fn format_type_annotation<TCompilationProfile: CompilationProfile>(
 
                     match variant {
                         UnionVariant::Scalar(scalar) => {
-                            s.push_str(&TCompilationProfile::TargetPlatform::format_server_field_scalar_type(
+                            s.push_str(&format_scalar_or_input_object_type(
                                 db,
                                 scalar.0,
                                 indentation_level + 1,
+                                enclosing_input_objects,
                             ));
                         }
                         UnionVariant::Plural(type_annotation) => {
@@ -486,6 +513,7 @@ fn format_type_annotation<TCompilationProfile: CompilationProfile>(
                                 db,
                                 type_annotation.item.reference(),
                                 indentation_level + 1,
+                                enclosing_input_objects,
                             ));
                             s.push('>');
                         }
@@ -502,20 +530,20 @@ fn format_type_annotation<TCompilationProfile: CompilationProfile>(
                     .first()
                     .expect("Expected variant to exist");
                 match variant {
-                    UnionVariant::Scalar(scalar) => {
-                        TCompilationProfile::TargetPlatform::format_server_field_scalar_type(
-                            db,
-                            scalar.0,
-                            indentation_level + 1,
-                        )
-                    }
+                    UnionVariant::Scalar(scalar) => format_scalar_or_input_object_type(
+                        db,
+                        scalar.0,
+                        indentation_level + 1,
+                        enclosing_input_objects,
+                    ),
                     UnionVariant::Plural(type_annotation) => {
                         format!(
                             "ReadonlyArray<{}>",
-                            TCompilationProfile::TargetPlatform::format_server_field_scalar_type(
+                            format_scalar_or_input_object_type(
                                 db,
                                 type_annotation.item.inner().0,
-                                indentation_level + 1
+                                indentation_level + 1,
+                                enclosing_input_objects,
                             )
                         )
                     }
@@ -525,10 +553,11 @@ fn format_type_annotation<TCompilationProfile: CompilationProfile>(
         TypeAnnotationDeclaration::Plural(type_annotation) => {
             format!(
                 "ReadonlyArray<{}>",
-                TCompilationProfile::TargetPlatform::format_server_field_scalar_type(
+                format_scalar_or_input_object_type(
                     db,
                     type_annotation.item.inner().0,
-                    indentation_level + 1
+                    indentation_level + 1,
+                    enclosing_input_objects,
                 )
             )
         }
